@@ -171,6 +171,13 @@ def c01g(db, res):
                     n += 1
                     facts = [a for a, e in P.facts_at(f, b)]
                     nonnull = (cur, '!=', '0') in facts
+                    # guarded inside the expression: (p == NULL) ? NULL : p + off
+                    for cnd in nodes(st, lambda y: y.get('k') == 'cond'):
+                        ca = P.canon(cnd['c'])
+                        if ca and ca[0] == cur and ca[2] == '0':
+                            arm = cnd['b'] if ca[1] == '==' else cnd['a'] if ca[1] == '!=' else None
+                            if arm is not None and any(y is x for y in nodes(arm, lambda y: y.get('k') == 'bin')):
+                                nonnull = True
                     hasbytes = (off, '<', ln) in facts or any('current_read_offset' in a[0] and 'current_consume_offset' in a[0] and a[1] in ('>=', '>') and a[2].isdigit() and int(a[2]) > 0 for a in facts) or any(a[1] == '!=' and a[2] == '0' and ('bytes' in a[0] or 'len' in a[0]) for a in facts) or any(a[0] in ('bytes_to_consume', 'bytes_left') and a[1] in ('!=', '>') and a[2] == '0' for a in facts)
                     key = '%s:%s+offset' % (name, cur.split('->')[1])
                     res.check(nonnull or hasbytes, 'C01.g', key, 'guarded by a non-NULL test or by bytes being available',
